@@ -137,8 +137,30 @@ func convKindsSchema() *parquet.Schema {
 	})
 }
 
+// every kind of nesting with the fields declared in reverse alphabetical
+// order at every depth: a parquet.Group schema never equals SchemaOf(ZRev)
+type ZRev struct {
+	Z []struct {
+		Y []int32 `parquet:"y"`
+		X *int32  `parquet:"x"`
+		W string  `parquet:"w,optional"`
+	} `parquet:"z"`
+	Y []string `parquet:"y,list"`
+	X *struct {
+		B []int64 `parquet:"b,list"`
+		A int32   `parquet:"a,optional"`
+	} `parquet:"x"`
+	W map[string]int32 `parquet:"w"`
+	V [][]int32        `parquet:"v,list"`
+	U int64            `parquet:"u,optional"`
+	T []int32          `parquet:"t,list" parquet-element:",optional"`
+}
+
 func catalogueConv() []*cat {
 	return []*cat{
+		mk[ZRev]("ZRev", longLists),
+		sorted[ZRev]("ZRev", longLists),
+		deepSorted[ZRev]("ZRev", longLists),
 		same[ReqScalars]("ReqScalars"),
 		same[OptScalars]("OptScalars"),
 		same[Wide]("Wide"),
